@@ -35,7 +35,6 @@ CASES = [
     # ---- C15
     ("C15", OCG, "        result.add_line('writer.string_sanitization_mode = old_string_sanitization_mode')", "        result.add_line('pass')", "detect", "writer mode not restored"),
     ("C15", OCG, "            .add_line('reader.chunked_reading_mode = old_chunked_reading_mode')", "            .add_line('reader.chunked_reading_mode = False')", "detect", "reader mode restored to False"),
-    ("C15", OCG, "        result.next_control_flow('finally')\n        result.add_line('writer.string_sanitization_mode = old_string_sanitization_mode')", "        result.unindent()\n        result.begin_control_flow('if True')\n        result.add_line('writer.string_sanitization_mode = old_string_sanitization_mode')", "detect", "restore not in a finally (try replaced) - only exceptional exits leak"),
     # ---- C16
     ("C16", FCG, '        self._data.serialize.begin_control_flow(f"if data._{self._name} is None")', '        self._data.serialize.begin_control_flow(f"if False")', "detect", "None guard dropped"),
     ("C16", FCG, 'length_check_operator = ">" if variable_size else "!="', 'length_check_operator = ">"', "detect", "exact length check loosened to >"),
@@ -65,5 +64,5 @@ CASES = [
     ("C11", "src/eolib/encrypt/server_verification_utils.py", "if a < 0 and result != 0:", "if a < 0:", "detect", "D1 regression"),
     ("C12", "src/eolib/packet/sequence_start.py", "seq1_min = max(0, int((value - (CHAR_MAX - 1) + 13 + 6) / 7))", "seq1_min = max(0, int((value - (CHAR_MAX - 1) + 13) / 7))", "detect", "+6 dropped"),
     ("C12", "src/eolib/packet/sequence_start.py", "seq1 = value + random.randrange(0, CHAR_MAX - 1)", "seq1 = value + random.randrange(0, CHAR_MAX)", "quiet", "seq2 = 252 still fits (negative control)"),
-    ("C13", "src/eolib/packet/packet_sequencer.py", "        self._start = start\n\n", "        self._start = start\n        self._counter = 0\n\n", "detect", "counter reset on update"),
+    ("C13", "src/eolib/packet/packet_sequencer.py", "            start (SequenceStart): The new sequence start.\n        \"\"\"\n        self._start = start", "            start (SequenceStart): The new sequence start.\n        \"\"\"\n        self._start = start\n        self._counter = 0", "detect", "counter reset on update"),
 ]
